@@ -17,7 +17,7 @@ func c10Specs() []*bfsSpec {
 			Depth: 6, DepthT: 7},
 		{Name: "c10-readers", Cfg: worldCfg{Geom: "gtail", Peers: peerAll, AutoDrain: true},
 			Setup:    []string{"haveall:0"},
-			Alphabet: []string{"ropen:0:81921", "ropen:32768:40000", "ropen:100:20000", "rread:0:40000", "rread:1:100", "rseek:0:40000", "rseek:0:70000", "rseek:1:0", "rclose:0", "rclose:1", "rcancel:0",
+			Alphabet: []string{"ropen:0:81921", "ropen:32768:40000", "ropen:100:20000", "rread:0:40000", "rread:0:100", "rread:1:100", "rseek:0:40000", "rseek:0:70000", "rseek:1:0", "rclose:0", "rclose:1", "rcancel:0",
 				"complete:0", "complete:1", "complete:2", "fail:0", "evict", "creq:0:1:1", "cdel:0:1"},
 			Depth: 6, DepthT: 7},
 	}
